@@ -2,23 +2,44 @@
 (* Bounded model-checking / script-generation instance of Library: crate forest + membership. *)
 EXTENDS Library, Json
 
-CONSTANTS Family, MaxCrates, MaxTracks, MaxOps, WithTracks
+CONSTANTS Family, MaxCrates, MaxTracks, MaxOps, WithTracks,
+          OpNames,      \* names used as arguments (subset of Names)
+          CrateOpSet,   \* "all" | "basic" (create_root, create_sub, remove_crate only)
+          Pre           \* "none" | "diverge": start after a preamble that makes crate, track and
+                        \* membership-row ids diverge (what a fresh-database test never has)
 
 VARIABLE hist      \* the calls made so far (ghost; hidden by the VIEW)
 
 NextId == Cardinality(live \cup dead) + 1
 NextTid == Cardinality(tlive \cup tdead) + 1
 
-MCInit == InitWith(Family) /\ hist = <<>>
+H(op, c, n, t, new) == [op |-> op, c |-> c, p |-> 0, n |-> n, t |-> t, a |-> 0, out |-> "ok", new |-> new]
+Preamble == << H("create_root", 0, "c", 0, 1), H("create_root", 0, "d", 0, 2), H("remove_crate", 1, "", 0, 0),
+               H("create_track", 0, "", 0, 1), H("create_track", 0, "", 0, 2), H("create_track", 0, "", 0, 3),
+               H("create_track", 0, "", 0, 4), H("remove_track", 0, "", 1, 0), H("remove_track", 0, "", 2, 0),
+               H("remove_track", 0, "", 3, 0) >>
+
+MCInit ==
+    IF Pre = "none" THEN InitWith(Family) /\ hist = <<>>
+    ELSE /\ fam = Family
+         /\ live = {2} /\ dead = {1}
+         /\ par = (2 :> Root) /\ nm = (2 :> "d")
+         /\ kids = (Root :> <<2>>) @@ (2 :> <<>>)
+         /\ tlive = {4} /\ tdead = {1, 2, 3}
+         /\ mem = (2 :> <<>>)
+         /\ last = Preamble[Len(Preamble)]
+         /\ kf = ""
+         /\ hist = Preamble
 
 CrateOps ==
-    \/ \E n \in Names : NextId <= MaxCrates /\ CreateRoot(n, NextId)
-    \/ \E n \in Names, a \in live : NextId <= MaxCrates /\ CreateRootAfter(n, a, NextId)
-    \/ \E c \in live, n \in Names : NextId <= MaxCrates /\ CreateSub(c, n, NextId)
-    \/ \E c \in live, n \in Names, a \in live : NextId <= MaxCrates /\ CreateSubAfter(c, n, a, NextId)
-    \/ \E c \in live, n \in Names : SetName(c, n)
-    \/ \E c \in live, p \in live \cup {Root} : SetParent(c, p)
+    \/ \E n \in OpNames : NextId <= MaxCrates /\ CreateRoot(n, NextId)
+    \/ \E c \in live, n \in OpNames : NextId <= MaxCrates /\ CreateSub(c, n, NextId)
     \/ \E c \in live : RemoveCrate(c)
+    \/ /\ CrateOpSet = "all"
+       /\ \/ \E n \in OpNames, a \in live : NextId <= MaxCrates /\ CreateRootAfter(n, a, NextId)
+          \/ \E c \in live, n \in OpNames, a \in live : NextId <= MaxCrates /\ CreateSubAfter(c, n, a, NextId)
+          \/ \E c \in live, n \in OpNames : SetName(c, n)
+          \/ \E c \in live, p \in live \cup {Root} : SetParent(c, p)
 
 TrackOps ==
     \/ NextTid <= MaxTracks /\ CreateTrack(NextTid)
